@@ -497,4 +497,17 @@ theorem checkedIntPowF_RelN (b : ℚ) (hb : 1 ≤ b) (e : Nat) (w : ℚ) (h : ch
 bit for bit with the compilers on ~280 magnitudes per run). -/
 example : checkedIntPowF (Flt.fin 3) 0 = some (Flt.fin 1) := by unfold checkedIntPowF cipLoopF; simp
 
+/-! ### The floating scaling step of a unit conversion (C05): `x * mag` or `x / mag` in the operation's format -/
+
+/-- Multiplying a finite value by a finite factor in format `F`: a finite result in the normal range is within the unit
+roundoff of the exact product. -/
+theorem C05_float_scale_mul_err (F : FltTy) (x g w : ℚ) (hne : x * g ≠ 0) (hnormal : (2 : ℚ) ^ F.emin ≤ |x * g|)
+    (h : Flt.mul F (.fin x) (.fin g) = .fin w) : |w - x * g| ≤ |x * g| * (2 : ℚ) ^ (-(F.prec : Int)) :=
+  rne_rel_err F (x * g) hne hnormal w (by simpa [Flt.mul] using h)
+
+/-- Dividing by a finite non-zero factor, likewise. -/
+theorem C05_float_scale_div_err (F : FltTy) (x g w : ℚ) (hg : g ≠ 0) (hne : x / g ≠ 0) (hnormal : (2 : ℚ) ^ F.emin ≤ |x / g|)
+    (h : Flt.div F (.fin x) (.fin g) = .fin w) : |w - x / g| ≤ |x / g| * (2 : ℚ) ^ (-(F.prec : Int)) :=
+  rne_rel_err F (x / g) hne hnormal w (by simpa [Flt.div, hg] using h)
+
 end Au
